@@ -670,7 +670,7 @@ func (e *exhEnv) execGenesis(ws []string) string {
 		if !ok {
 			return "bad-op"
 		}
-		if seen[o.OrderId] {
+		if seen[o.OrderId] || o.Validate() != nil {
 			return "err:invalid" // GenesisState.Validate
 		}
 		seen[o.OrderId] = true
@@ -681,15 +681,23 @@ func (e *exhEnv) execGenesis(ws []string) string {
 		if len(p) != 3 {
 			return "bad-op"
 		}
-		gs.Commitments = append(gs.Commitments, exchange.Commitment{MarketId: u32(p[0]), Account: e.bech(p[1]), Amount: exhParseCoins(p[2])})
+		c := exchange.Commitment{MarketId: u32(p[0]), Account: e.bech(p[1]), Amount: exhParseCoins(p[2])}
+		if c.Validate() != nil {
+			return "err:invalid"
+		}
+		gs.Commitments = append(gs.Commitments, c)
 	}
 	for _, s := range exhSplit(exhKV(ws, "pays"), ";") {
 		p := strings.Split(s, ":")
 		if len(p) != 5 {
 			return "bad-op"
 		}
-		gs.Payments = append(gs.Payments, exchange.Payment{Source: e.bech(p[0]), ExternalId: p[1], Target: e.bech(p[2]),
-			SourceAmount: exhParseCoins(p[3]), TargetAmount: exhParseCoins(p[4])})
+		pm := exchange.Payment{Source: e.bech(p[0]), ExternalId: p[1], Target: e.bech(p[2]),
+			SourceAmount: exhParseCoins(p[3]), TargetAmount: exhParseCoins(p[4])}
+		if pm.Validate() != nil {
+			return "err:invalid"
+		}
+		gs.Payments = append(gs.Payments, pm)
 	}
 	holds := e.parseEntries(exhKV(ws, "holds"))
 	err, pan := Try(e.ctx, func(ctx sdk.Context) error {
